@@ -8,27 +8,39 @@ AsSeq(s) == [k \in 1..Len(s) |-> s[k]]
 Pairs(s) == [k \in 1..Len(s) |-> <<s[k][1], s[k][2]>>]
 SetOf(s) == {s[k] : k \in 1..Len(s)}
 
+(* the partition is unique, so the groups are compared as a set (the order of the list is not part of the property) *)
 BordersClauses ==
-   LET E == AsSeq(Rec.E)  G == Pairs(Rec.out) IN
-   [ equals_spec |-> G = Borders(E, Rec.th, Rec.kr),
-     partition   |-> IsPartition(E, G),
-     internal    |-> (~Rec.kr \/ KramersPaired(E, Rec.th)) => InternalGapsSmall(E, G, Rec.th),
-     boundary    |-> BoundaryGapsLarge(E, G, Rec.th),
+   LET E == AsSeq(Rec.E)  G == Pairs(Rec.out)  B == Borders(E, Rec.th, Rec.kr)
+       Gs == SortSeq(G, LAMBDA a, b : a[1] < b[1])
+       part == IsPartition(E, Gs)          \* the gap clauses index E through the groups: evaluated for partitions only
+   IN
+   [ equals_spec |-> SetOf(G) = {B[j] : j \in 1..Len(B)} /\ Len(G) = Len(B),
+     partition   |-> part,
+     internal    |-> (part /\ (~Rec.kr \/ KramersPaired(E, Rec.th))) => InternalGapsSmall(E, Gs, Rec.th),
+     boundary    |-> part => BoundaryGapsLarge(E, Gs, Rec.th),
      kramers     |-> Rec.kr => BoundariesEven(G) ]
 WindowClauses ==
    LET E == AsSeq(Rec.E)  S == {k + 1 : k \in SetOf(Rec.out)} IN
    [ equals_spec  |-> S = SelectWindow(E, Rec.th, Rec.lo, Rec.hi, Rec.incl),
      never_splits |-> NeverSplits(E, Rec.th, S),
-     monotone     |-> IF Rec.incl THEN Inside0(E, Rec.lo, Rec.hi) \subseteq S ELSE S \subseteq Inside0(E, Rec.lo, Rec.hi) ]
+     monotone     |-> IF Rec.incl THEN Inside0(E, Rec.lo, Rec.hi) \subseteq S ELSE S \subseteq Inside0(E, Rec.lo, Rec.hi),
+     empty_window |-> Rec.lo > Rec.hi => S = {} ]
+(* get_bands_in_range / Data_K.get_bands_in_range_groups: admissible set of whole groups (ends of the range are free) *)
 InRangeClauses ==
-   LET E == AsSeq(Rec.E) IN
-   [ equals_spec |-> Pairs(Rec.out) = GroupsInRange(E, Rec.th, Rec.kr, Rec.emin, Rec.emax) ]
+   LET E == AsSeq(Rec.E)  G == Pairs(Rec.out) IN
+   [ admissible_groups |-> InRangeAdmissible(E, Rec.th, Rec.kr, Rec.emin, Rec.emax, SetOf(G)),
+     no_duplicates |-> Cardinality(SetOf(G)) = Len(G) ]
+(* Tabulator at one k-point: Rec.vin[b] = integer value of band b given to the synthetic formula (its trace over a set of
+   bands is the sum), Rec.ib = tabulated band indices (0-based, any subset / order), Rec.vals[p] = tabulated value for
+   band ib[p]; the blocks are the specification's own Borders(E, th, kr) *)
 TabClauses ==
-   (* tabulated values: Rec.groups = groups, Rec.vals[b] = integer value tabulated for band b (0-based list) *)
-   LET G == Pairs(Rec.groups) V == AsSeq(Rec.vals) IN
-   [ equal_inside_block |-> \A j \in 1..Len(G) : \A a, b \in (G[j][1] + 1)..G[j][2] : V[a] = V[b],
-     block_average |-> \A j \in 1..Len(G) : \A a \in (G[j][1] + 1)..G[j][2] :
-                            V[a] * (G[j][2] - G[j][1]) = Rec.tr[j] ]
+   LET E == AsSeq(Rec.E)  G == Borders(E, Rec.th, Rec.kr)  vin == AsSeq(Rec.vin)  ib == AsSeq(Rec.ib)  V == AsSeq(Rec.vals)
+       GroupOf(b) == CHOOSE j \in 1..Len(G) : G[j][1] <= b /\ b < G[j][2]
+       BlockSum(g) == LET S[b \in g[1]..g[2]] == IF b = g[1] THEN 0 ELSE S[b - 1] + vin[b] IN S[g[2]]
+   IN
+   [ shape |-> Len(V) = Len(ib),
+     equal_inside_block |-> \A p, q \in 1..Len(ib) : GroupOf(ib[p]) = GroupOf(ib[q]) => V[p] = V[q],
+     block_average |-> \A p \in 1..Len(ib) : LET g == G[GroupOf(ib[p])] IN V[p] * (g[2] - g[1]) = BlockSum(g) ]
 Clauses == CASE Rec.fn = "borders" -> BordersClauses
              [] Rec.fn = "window" -> WindowClauses
              [] Rec.fn = "inrange" -> InRangeClauses
